@@ -11,9 +11,21 @@
                                                                          C12_arp_learns, C12_arp_learns_what
    malformed / short / foreign packets are ignored, never a panic        C12_arp_ignored, C12_arp_never_panics,
                                                                          C12_nic_deliver_never_panics
-   "a request is broadcast" (format of our own request; a peer answers it) C12_arp_request_wf, C12_arp_round_trip *)
+   "a request is broadcast" (format of our own request; a peer answers it) C12_arp_request_wf, C12_arp_round_trip
+   "a cached entry is never reported for a different address or after it has expired"
+                                                                         C12_cache_get_sound (all histories, all ring sizes)
+   "a request is ... repeated ... fails with a no-link-address error after the retry budget
+    (3 attempts, about 3 s)"                                             C12_resolver_budget_upper (any interference),
+                                                                         C12_resolution_budget (no reply: exact times, failure,
+                                                                         every waiter notified exactly once, then and not before),
+                                                                         C12_resolution_budget_stack (3 requests 1 s apart, 3 s)
+   "the waiting operation then proceeds using the learned address"       C12_resolution_completes_on_add
+   no history reaches a panic branch (changeState, nil waker map)        C12_cache_never_panics, C12_changeState_panics_iff
+   Not stated as theorems (covered by the scenario runs of the driver only): "traffic ... is not put
+   on the wire before resolution completes" for the TCP/UDP callers; the IPv6 neighbour discovery
+   handlers. *)
 From Coq Require Import ZArith Bool List.
-From NP Require Import Model.Bytes Model.Arp Proofs.ArpP.
+From NP Require Import Model.Bytes Model.Arp Proofs.ArpP Model.LinkCache Proofs.LinkCacheP.
 Import ListNotations.
 Open Scope Z_scope.
 
@@ -80,3 +92,81 @@ Theorem C12_arp_round_trip : forall addr localAddr myMAC peerMAC h,
     arp_handle [localAddr] myMAC peerMAC rep = Done None (Some (addr, peerMAC)).
 Proof. exact arp_round_trip. Qed.
 Print Assumptions C12_arp_round_trip.
+
+(* ------------------------------------------------------------------ the link-address cache *)
+
+(* every history of add / get / checkLinkRequest / removeWaker, at any times, for any ring size,
+   age limit and attempt budget, runs to completion: no panic branch is reachable *)
+Theorem C12_cache_never_panics : forall P ops, exists c outs, exec P init ops = Some (c, outs).
+Proof. exact cache_never_panics. Qed.
+Print Assumptions C12_cache_never_panics.
+
+(* the panic branches of changeState are exactly the transitions out of ready/failed to anything
+   but expired and out of expired (so the theorem above says those are never attempted) *)
+Theorem C12_changeState_panics_iff : forall e ns, changeState e ns = None <-> ~ legal (e_s e) ns.
+Proof. exact changeState_panics_iff. Qed.
+Print Assumptions C12_changeState_panics_iff.
+
+Theorem C12_cache_get_sound : forall P t0 h c outs now k res w c' v evs,
+  mono t0 (h ++ [OGet now k res w]) ->
+  exec P init h = Some (c, outs) ->
+  get P c now k res w = Some (c', GAddr v, evs) ->
+  no_static res ->
+  exists h1 t h2, h = h1 ++ OAdd t k v :: h2 /\
+    (forall t' v', In (OAdd t' k v') h2 -> v' = v) /\ now <= t + p_age P.
+Proof. exact cache_get_sound. Qed.
+Print Assumptions C12_cache_get_sound.
+
+Theorem C12_resolver_budget_upper : forall P T k envs c t att c' reqs fin outs,
+  att < p_attempts P ->
+  res_run P T k c t att envs = Some (c', reqs, fin, outs) ->
+  att + 1 + Z.of_nat (length reqs) <= p_attempts P /\ reqs = req_times t T (length reqs).
+Proof. exact resolver_budget_upper. Qed.
+Print Assumptions C12_resolver_budget_upper.
+
+Theorem C12_resolution_budget : forall P T k c0 t0 w c1 ch evs0 envs,
+  Inv c0 -> (0 < p_N P)%nat -> 0 <= T ->
+  get P c0 t0 k (Some None) w = Some (c1, GBlock (Some ch) true, evs0) ->
+  Z.of_nat (length envs) = p_attempts P -> envs <> [] ->
+  p_attempts P * T <= p_age P ->
+  (length (concat envs) < p_N P)%nat ->
+  Forall (fun o => calm k o /\ time_of o <= t0 + p_age P) (concat envs) ->
+  exists c2 outs wsf c3,
+    res_run P T k c1 t0 0 envs =
+      Some (c2, req_times t0 T (length envs - 1), Some (t0 + p_attempts P * T),
+            outs ++ [(RCheck true, map (Notify (Some ch)) wsf ++ [Close ch])]) /\
+    wsf = fold_left (ws_step k) (concat envs) [w] /\ NoDup wsf /\
+    outs_quiet ch outs /\
+    get P c2 (t0 + p_attempts P * T) k None w = Some (c3, GNoLink, []).
+Proof. exact resolution_budget. Qed.
+Print Assumptions C12_resolution_budget.
+
+(* [Inv] holds of every reachable cache (so the hypothesis above is satisfiable from [init]) *)
+Theorem C12_inv_reachable : forall P ops c, Inv c ->
+  exists c' outs, exec P c ops = Some (c', outs) /\ Inv c'.
+Proof. exact exec_total. Qed.
+Print Assumptions C12_inv_reachable.
+
+Theorem C12_resolution_budget_stack : forall k c0 t0 w c1 ch evs0 env0 env1 env2,
+  Inv c0 ->
+  get stackParams c0 t0 k (Some None) w = Some (c1, GBlock (Some ch) true, evs0) ->
+  (length (env0 ++ env1 ++ env2) < 512)%nat ->
+  Forall (fun o => calm k o /\ time_of o <= t0 + 60000000000) (env0 ++ env1 ++ env2) ->
+  exists c2 outs wsf c3,
+    res_run stackParams stackTimeout k c1 t0 0 [env0; env1; env2] =
+      Some (c2, [t0 + 1000000000; t0 + 2000000000], Some (t0 + 3000000000),
+            outs ++ [(RCheck true, map (Notify (Some ch)) wsf ++ [Close ch])]) /\
+    NoDup wsf /\ outs_quiet ch outs /\
+    get stackParams c2 (t0 + 3000000000) k None w = Some (c3, GNoLink, []).
+Proof. exact resolution_budget_stack. Qed.
+Print Assumptions C12_resolution_budget_stack.
+
+Theorem C12_resolution_completes_on_add : forall P c k i ch t0 ws now v,
+  waiting P c k i ch t0 ws -> now <= t0 + p_age P -> v <> 0 ->
+  exists c', add P c now k v = Some (c', map (Notify (Some ch)) ws ++ [Close ch]) /\
+    (forall now' res w', now' <= t0 + p_age P -> no_static res ->
+       exists c'', get_p P c' now' k res w' = (c'', GAddr v, [])) /\
+    (forall now' att, now' <= t0 + p_age P ->
+       exists c'', checkLinkRequest P c' now' k att = Some (c'', true, [])).
+Proof. exact resolution_completes_on_add. Qed.
+Print Assumptions C12_resolution_completes_on_add.
